@@ -150,6 +150,11 @@ type c17State struct {
 	// witness: an independent accumulator holding one unit that this history never touches
 	wit      packet.Accumulator
 	witBytes []byte
+	// a packet list obtained from Packets() some calls ago and what it held then: it is the caller's, so
+	// nothing the accumulator does later (restart, Reset, new units) may change what it points to
+	held     []*packet.Packet
+	heldWant [][188]byte
+	heldAge  int
 }
 
 func c17New(id int) *c17State {
@@ -304,6 +309,26 @@ func c17Observe(s *c17State, res *engine.Result, ctx string) {
 			res.Failf("witness|Accumulator|changed-by-calls-on-another-accumulator", "an independent accumulator changed (%d -> %d bytes, %d packets)", len(s.witBytes), len(wb), len(s.wit.Packets()))
 		}
 	}
+	if s.held != nil {
+		for i := range s.held {
+			if i >= 2 && i < len(s.held)-2 {
+				continue // long lists: the first two and the last two packets
+			}
+			if s.held[i] == nil || *s.held[i] != packet.Packet(s.heldWant[i]) {
+				res.Failf(ctx+"|earlier-Packets-list-changed", "packet %d of a list that Packets() returned %d calls ago no longer holds the packet it held then", i, s.heldAge+1)
+				s.held = nil
+				break
+			}
+		}
+		s.heldAge++
+	}
+	defer func() {
+		if s.held == nil || s.heldAge >= 3 {
+			if l := s.acc.Packets(); len(l) > 0 && len(l) == len(s.pkts) {
+				s.held, s.heldWant, s.heldAge = l, append([][188]byte{}, s.pkts...), 0
+			}
+		}
+	}()
 	got := s.acc.Bytes()
 	if !bytes.Equal(got, s.data) {
 		res.Failf(ctx+"|Bytes", "Bytes() has %d bytes, model %d (first difference at %d)", len(got), len(s.data), firstDiff(got, s.data))
@@ -445,13 +470,76 @@ func c17CheckTrain(c c17Train) engine.Result {
 	return res
 }
 
+// c17HeaderBits: a unit start followed by ONE continuation packet whose header takes every combination of
+// transport_error_indicator, transport_priority, scrambling control, continuity counter parity and
+// adaptation-field shape: the bytes are the two payloads, whatever the other header bits say.
+type c17HdrCase struct {
+	Byte1Top int `json:"tei_pusi0_priority"` // bits 7 and 5 of header byte 1
+	TSC      int `json:"scrambling_control"`
+	AFLen    int `json:"adaptation_field_length"` // -1 = no adaptation field
+}
+
+func c17CheckHeaderBits(c c17HdrCase) engine.Result {
+	var res engine.Result
+	for _, startScr := range []int{0, 2} {
+		for cc := 0; cc < 16; cc += 5 {
+			acc := packet.NewAccumulator(func([]byte) (bool, error) { return false, nil })
+			start := packet.Packet(c17Alphabet[0].raw)
+			start[3] = start[3]&0x3F | byte(startScr<<6)
+			var cont packet.Packet
+			for i := range cont {
+				cont[i] = byte(0x30 + i%97)
+			}
+			cont[0] = 0x47
+			cont[1] = byte(c.Byte1Top&2<<6|c.Byte1Top&1<<5) | 0x01
+			cont[2] = 0x00
+			afc := 1
+			pay := cont[4:]
+			if c.AFLen >= 0 {
+				afc = 3
+				cont[4] = byte(c.AFLen)
+				if c.AFLen > 0 {
+					cont[5] = 0x00
+					for i := 6; i < 5+c.AFLen; i++ {
+						cont[i] = 0xFF
+					}
+				}
+				pay = cont[5+c.AFLen:]
+			}
+			cont[3] = byte(c.TSC<<6 | afc<<4 | cc)
+			want := append(append([]byte{}, c17Alphabet[0].pay...), pay...)
+			res.Evals++
+			var e1, e2 error
+			if engine.Guard(&res, "accumulator", func() {
+				_, e1 = acc.WritePacket(&start)
+				_, e2 = acc.WritePacket(&cont)
+			}) {
+				continue
+			}
+			if e1 != nil || e2 != nil {
+				res.Failf("header-bits|WritePacket|error", "scrambling %d afLen %d: errors %v / %v", c.TSC, c.AFLen, e1, e2)
+				continue
+			}
+			if got := acc.Bytes(); !bytes.Equal(got, want) {
+				res.Failf("header-bits|Bytes", "continuation with header % x (scrambling %d, adaptation_field_length %d): %d bytes accumulated, want %d (first difference at %d)", cont[:5], c.TSC, c.AFLen, len(got), len(want), firstDiff(got, want))
+			}
+			if gp := acc.Packets(); len(gp) != 2 || gp[1] == nil || *gp[1] != cont {
+				res.Failf("header-bits|Packets", "the stored continuation packet differs from the packet written")
+			}
+			res.Outcome(len(pay))
+		}
+	}
+	res.Nontrivial = 1
+	return res
+}
+
 func init() {
 	engine.Register(&engine.Property{
 		ID: "C17", Title: "Payload accumulator returns exactly the payloads since the last unit start", Level: "model_checking",
 		Scenarios: []engine.ScenarioRunner{
 			&engine.BFS[*c17State]{
 				Name:  "histories",
-				Rule:  "BFS over all histories of {WritePacket(p) for 17 packets (two on the null PID 0x1FFF; unit starts carrying a PES packet start that announces fewer / more bytes than the payload holds and a PSI section start; PUSI/continuation x 184-byte payloads A/B, 3-byte and 1-byte payloads behind adaptation-field stuffing, AF-only with and without PUSI, AF length 183 with payload flag, adaptation_field_control 00 with and without PUSI), Reset} from a new accumulator, one run per completion predicate (never; done at >=1/184/185/368 bytes; error at >=184/368; done-then-error; error-after-done; failing with the library's own sentinel values gots.ErrAccumulatorDone / gots.ErrNoPayload / io.EOF as the predicate's error — a failing predicate never completes the accumulation, whatever its error value is); after every call Bytes(), Packets(), the predicate's argument, the returned error class and input immutability are compared with a list model, returned slices are overwritten as aliasing probes (also the packets the returned list points to: Bytes() must not follow them), and after Reset the canonical state must equal a new accumulator's; canonical key = private state (hook) + bytes + packets + model flags; depth 6 (quick) / 8 (thorough)",
+				Rule:  "BFS over all histories of {WritePacket(p) for 17 packets (two on the null PID 0x1FFF; unit starts carrying a PES packet start that announces fewer / more bytes than the payload holds and a PSI section start; PUSI/continuation x 184-byte payloads A/B, 3-byte and 1-byte payloads behind adaptation-field stuffing, AF-only with and without PUSI, AF length 183 with payload flag, adaptation_field_control 00 with and without PUSI), Reset} from a new accumulator, one run per completion predicate (never; done at >=1/184/185/368 bytes; error at >=184/368; done-then-error; error-after-done; failing with the library's own sentinel values gots.ErrAccumulatorDone / gots.ErrNoPayload / io.EOF as the predicate's error — a failing predicate never completes the accumulation, whatever its error value is); after every call Bytes(), Packets(), the predicate's argument, the returned error class and input immutability are compared with a list model, returned slices are overwritten as aliasing probes (also the packets the returned list points to: Bytes() must not follow them), a list that Packets() returned up to three calls earlier must still hold the packets it held then (across restarts and Resets), and after Reset the canonical state must equal a new accumulator's; canonical key = private state (hook) + bytes + packets + model flags; depth 6 (quick) / 8 (thorough)",
 				Inits: func(r *engine.Run) []int { return seq(0, len(c17Preds)-1) },
 				NOps:  func(r *engine.Run) int { return len(c17Alphabet) + 1 },
 				New:   c17New,
@@ -508,6 +596,20 @@ func init() {
 					}
 				},
 				Check: c17CheckLong, Batch: 8,
+			},
+			&engine.Enum[c17HdrCase]{
+				Name: "header-bits",
+				Rule: "a unit start (plain / scrambled) followed by one continuation packet for every combination of transport_error_indicator x transport_priority x transport_scrambling_control (4) x adaptation field absent / adaptation_field_length 0..182 x 4 continuity counters: no error, Bytes() == the two payloads, Packets() holds the packet as written (the payload position depends on adaptation_field_control and the length byte only)",
+				Gen: func(r *engine.Run, emit func(c17HdrCase)) {
+					for b := 0; b < 4; b++ {
+						for tsc := 0; tsc < 4; tsc++ {
+							for af := -1; af <= 182; af++ {
+								emit(c17HdrCase{b, tsc, af})
+							}
+						}
+					}
+				},
+				Check: c17CheckHeaderBits, Batch: 64,
 			},
 			&engine.Enum[c17Train]{
 				Name: "unit-trains",
